@@ -476,6 +476,16 @@ pub fn check(e: &Engine) {
 		&super::realjob::run_quit,
 	);
 	e.require_label("graceful-quit", "quit-in-creating-action", 0.25);
+	e.explore(
+		"quit-while-busy",
+		LegOpts::realtime(
+			e.tier.pick(32, 400),
+			16,
+			"a graceful quit (grace 0/100/500 ms) requested 40-300 ms after 1-2 jobs running real processes that ignore signals (or exit 700 ms after the first one) were given something that must finish first: a graceful stop or graceful restart with a longer grace period (2.2/2.7 s) and another signal, or a run_async hook sleeping that long. Earlier grace period: the process logs the earlier control's signal first and is not seen dead before that grace period is over; hook: the process logs the quit's signal first and is not seen dead before the quit's grace period after it; gone 1.5 s after the deadline; main finishes; nothing survives",
+		),
+		&super::realjob::quit_busy_strategy,
+		&super::realjob::run_quit_busy,
+	);
 	e.require_label("real-process", "outlives-grace", 0.15);
 	e.require_label("real-process", "ends-within-grace", 0.15);
 	e.require_label("graceful", "reaction-within-1ms-of-deadline", 0.1);
